@@ -112,11 +112,14 @@ func genTree(r *RNG, name string, depth, maxFan, maxSize int, forks bool, budget
 	} else if depth == 1 && r.Chance(60) {
 		fan = 1 + r.Intn(maxFan)
 	}
+	if *budget > 60 && depth <= 2 {
+		fan = maxFan // a large tree was asked for
+	}
 	used := map[string]bool{}
 	for i := 0; i < fan && *budget > 0; i++ {
 		*budget--
 		n := genTreeName(r, used, true)
-		if depth < 3 && r.Chance(35) {
+		if depth < 3 && (r.Chance(35) || (*budget > 60 && r.Chance(30))) {
 			t.kids = append(t.kids, genTree(r, n, depth+1, maxFan, maxSize, forks, budget))
 			continue
 		}
@@ -358,7 +361,7 @@ func runC10Download(c *Case) {
 	if err != nil {
 		return
 	}
-	set := &transferSet{ts: ts}
+	set := &transferSet{ts: ts, x: c.X}
 	defer func() {
 		if !set.waitAll() {
 			c.Violation("transfer-handler-hangs", "a transfer handler did not return")
@@ -373,8 +376,12 @@ func runC10Download(c *Case) {
 	}
 	for ti := 0; ti < 4; ti++ {
 		budget := 10 + r.Intn(50)
+		fanMax := 5
+		if ti == 0 && r.Chance(30) {
+			budget, fanMax = 60+r.Intn(90), 7 // an occasional large tree (item counts beyond a few dozen)
+		}
 		rootName := genTreeName(r, map[string]bool{}, false)
-		tree := genTree(r, rootName, 0, 5, maxSize, r.Chance(60), &budget)
+		tree := genTree(r, rootName, 0, fanMax, maxSize, r.Chance(60), &budget)
 		var pathItems [][]byte
 		parent := ts.Root
 		for d := r.Pick(0, 0, 1); d > 0; d-- {
@@ -955,7 +962,7 @@ func runC10Upload(c *Case) {
 	if err != nil {
 		return
 	}
-	set := &transferSet{ts: ts}
+	set := &transferSet{ts: ts, x: c.X}
 	defer func() {
 		if !set.waitAll() {
 			c.Violation("transfer-handler-hangs", "a transfer handler did not return")
@@ -1013,6 +1020,11 @@ func runC10Upload(c *Case) {
 					k = len(it.data)
 				}
 				os.WriteFile(p+".incomplete", it.data[:k], 0644)
+				if r.Chance(15) {
+					// a stale partial file next to a final name: the partial-file test comes second and wins,
+					// the item is resumed and renamed over the final name
+					os.WriteFile(p, genData(r, r.Intn(50)), 0644)
+				}
 			}
 		}
 		cutItem, cutAt := -1, 0
@@ -1037,6 +1049,7 @@ func runC10Upload(c *Case) {
 		}
 		c.Dist(fmt.Sprintf("folder-upload/pre=%d cut=%v", preMode, cutItem >= 0))
 		c.Dist("folder-upload/items=" + countBucket(len(items)))
+		_, preFinal, _, _, _ := diskStore(target)
 		ok, _ := e.uploadSession(folder, items, cutItem, cutAt, expect, "first session")
 		if !ok {
 			continue
@@ -1047,6 +1060,9 @@ func runC10Upload(c *Case) {
 			_, final, _, _, _ := diskStore(target)
 			for k, b := range final {
 				if _, streamed := expect[k]; streamed {
+					if old, was := preFinal[k]; was && bytesEq(b, old) {
+						continue // not reached before the cut: still what it held before the upload
+					}
 					if !bytesEq(b, expect[k]) {
 						c.Note("file", k)
 						c.Violation("published-before-complete", "after a cut folder upload a final name holds something else than the expected bytes")
@@ -1067,7 +1083,7 @@ func runC10RoundTrip(c *Case) {
 	if err != nil {
 		return
 	}
-	set := &transferSet{ts: ts}
+	set := &transferSet{ts: ts, x: c.X}
 	defer func() {
 		if !set.waitAll() {
 			c.Violation("transfer-handler-hangs", "a transfer handler did not return")
@@ -1124,7 +1140,7 @@ func runC10Regressions(c *Case) {
 	if err != nil {
 		return
 	}
-	set := &transferSet{ts: ts}
+	set := &transferSet{ts: ts, x: c.X}
 	defer func() {
 		set.waitAll()
 		ts.Close()
@@ -1163,7 +1179,7 @@ func runC10Regressions(c *Case) {
 
 func init() {
 	props["C10"] = func(x *Ctx) {
-		x.rule = "folder-download: 4 trees per case (depth ≤ 4, fan-out ≤ 5, ≤ 60 entries, empty folders, dot-files and dot-folders with visible entries below them, names chosen to separate per-directory byte order from whole-path order, file sizes 0..100 KiB (thorough 200 KiB), optional .info_/.rsrc_ side files, requested at the root or one level down), each downloaded under 3 action scripts (all send; mixed send/resume/next; resume-heavy or all next; resume offsets 0,1,size-1,size,random; 12% of the runs the client disconnects at an item header or after a file). folder-upload: 4 client trees per case streamed in client order into an empty, partly or largely pre-populated folder (existing folders, complete files with equal or other contents, partial files holding a prefix), 45% cut inside a file item (before the size, inside the header, at header end ±1, mid data, last byte) followed by a second complete session. folder-roundtrip: upload into an empty folder, then download with all-send. non-trivial = a file item whose bytes were transferred (download) / a session that streamed at least one item (upload); distinct = distinct (path, size, action, fork combination) resp. (items, pre-population, cut)"
+		x.rule = "folder-download: 4 trees per case (depth ≤ 4, fan-out ≤ 5, ≤ 60 entries — 30% of the cases one tree with fan-out ≤ 7 and up to 150 entries —, empty folders, dot-files and dot-folders with visible entries below them, names chosen to separate per-directory byte order from whole-path order, file sizes 0..100 KiB (thorough 200 KiB), optional .info_/.rsrc_ side files, requested at the root or one level down), each downloaded under 3 action scripts (all send; mixed send/resume/next; resume-heavy or all next; resume offsets 0,1,size-1,size,random; 12% of the runs the client disconnects at an item header or after a file). folder-upload: 4 client trees per case streamed in client order into an empty, partly or largely pre-populated folder (existing folders, complete files with equal or other contents, partial files holding a prefix), 45% cut inside a file item (before the size, inside the header, at header end ±1, mid data, last byte) followed by a second complete session. folder-roundtrip: upload into an empty folder, then download with all-send. non-trivial = a file item whose bytes were transferred (download) / a session that streamed at least one item (upload); distinct = distinct (path, size, action, fork combination) resp. (items, pre-population, cut)"
 		x.assume = []string{
 			"root folder names are visible (no leading dot); names ending in .incomplete or starting with .info_/.rsrc_ are not generated (the on-disk naming scheme cannot tell them from partial/side files)",
 			"resume of a file with a stored resource fork, and a resource fork without an information fork, are compared with the model as coded (DESIGN §7 C08 'not covered': resume of the resource fork); the size-prefix clause is judged directly only without a stored resource fork or for 'send'",
